@@ -5,7 +5,7 @@ import Vgw.Lemmas.CrashOthers
 -/
 namespace Vgw.Model.Crash
 
-attribute [local irreducible] publish storeAttrs storeAttr mkdirAll openTmp archive deleteAttrs deleteAttr
+attribute [local irreducible] publish publishR publishC storeAttrs storeAttr mkdirAll openTmp archive deleteAttrs deleteAttr
   deleteNullVersion removeParents planPutSpec prePut preUploadPart preComplete cleanupUpload
 
 /-- paths beside the object: temp area, versioning area, proper ancestors of the object -/
@@ -125,13 +125,14 @@ theorem writes_archive_xattr (cfg : Cfg) (hs : cfg.sidecar = false) (rq : Req) (
       have := ref_openTmp cfg fs 1 (verBucket cfg ++ [".sgwtmp"]) _ _ q h
       rw [hvb] at this
       exact hV (Or.inr this)
-    · refine (writes_publish _ _ _).mono (fun q h => ?_)
-      rcases h with h | h | h
+    · refine (writes_publishC cfg _ _ _ _ _).mono (fun q h => ?_)
+      rcases h with h | h | h | h
       · subst h; rw [hvp]; exact ⟨_, rfl⟩
       · rw [hvp] at h; exact hV (Or.inl h)
       · have := ref_openTmp cfg fs 1 (verBucket cfg ++ [".sgwtmp"]) _ _ q h
         rw [hvb] at this
         exact hV (Or.inr this)
+      · subst h; exact ⟨_, rfl⟩
   · exact WritesIn.nil _
 
 theorem writes_deleteNullVersion (cfg : Cfg) (key : Path) (fs : FS) : WritesIn (fun q => ["V"] <+: q) (deleteNullVersion cfg fs key) := by
@@ -169,18 +170,63 @@ theorem publish_absent (fs : FS) (r : Ref) (obj : Path) (h : fs.get obj = none) 
   simp only [h, run_nil, List.nil_append]
   cases r <;> rfl
 
-theorem countP_publish_absent (cfg : Cfg) (key : Path) (hk : KeyOK key) (fs : FS) (r : Ref)
-    (h : fs.get (objPath cfg key) = none) :
-    (publish fs r (objPath cfg key)).countP (fun s => !s.silent (reads cfg key)) ≤ 1 := by
-  rw [publish_absent fs r _ h, List.countP_append,
-    countP_zero_of_silent (silent_of_aside ((writes_mkdirAll _ _).mono (fun q h => aside_above_obj h.1 hk.1)) hk)]
-  rw [Nat.zero_add]
+theorem publishC_absent (cfg : Cfg) (fs : FS) (r : Ref) (obj tdir : Path) (name : String) (h : fs.get obj = none) :
+    publishC cfg fs r obj tdir name = mkdirAll fs obj.dropLast ++ (match r with
+      | .anon id => [.link id obj]
+      | .path t => [.chmod (.path t), .rename t obj]) := by
+  unfold publishC
+  split
+  · unfold publishR rmDirAt
+    simp only [h, FS.isFile, List.append_nil, Bool.false_eq_true, ↓reduceIte]
+    cases r <;> rfl
+  · exact publish_absent fs r obj h
+
+theorem countP_final (cfg : Cfg) (key : Path) (r : Ref) :
+    (match r with
+      | .anon id => [Step.link id (objPath cfg key)]
+      | .path t => [Step.chmod (.path t), Step.rename t (objPath cfg key)]).countP (fun s : Step => !s.silent (reads cfg key)) ≤ 1 := by
   cases r with
   | anon id => exact List.countP_le_length
   | path t =>
     show List.countP _ [Step.chmod (Ref.path t), Step.rename t (objPath cfg key)] ≤ 1
     rw [List.countP_cons_of_neg (by simp [Step.silent, Step.writes])]
     exact List.countP_le_length
+
+theorem countP_publish_absent (cfg : Cfg) (key : Path) (hk : KeyOK key) (fs : FS) (r : Ref) (tdir : Path) (name : String)
+    (h : fs.get (objPath cfg key) = none) :
+    (publishC cfg fs r (objPath cfg key) tdir name).countP (fun s => !s.silent (reads cfg key)) ≤ 1 := by
+  rw [publishC_absent cfg fs r _ tdir name h, List.countP_append,
+    countP_zero_of_silent (silent_of_aside ((writes_mkdirAll _ _).mono (fun q h => aside_above_obj h.1 hk.1)) hk),
+    Nat.zero_add]
+  exact countP_final cfg key r
+
+/-- With docs/C11-fix-1.diff (`atomicReplace`) the publication has one non-silent step also when the object exists:
+    the new inode gets a name below the temp directory, then ONE rename replaces the object. -/
+theorem countP_publishR (cfg : Cfg) (har : cfg.atomicReplace = true) (key : Path) (hk : KeyOK key) (fs : FS) (r : Ref)
+    (tdir : Path) (name : String) (htd : tmpDir cfg <+: tdir) (hnd : fs.isDir (objPath cfg key) = false) :
+    (publishC cfg fs r (objPath cfg key) tdir name).countP (fun s => !s.silent (reads cfg key)) ≤ 1 := by
+  unfold publishC
+  simp only [har, ↓reduceIte]
+  unfold publishR
+  dsimp only
+  have hrm : rmDirAt fs (objPath cfg key) = [] := by
+    unfold rmDirAt
+    unfold FS.isDir at hnd
+    split <;> simp_all
+  rw [hrm, List.append_nil, List.countP_append,
+    countP_zero_of_silent (silent_of_aside ((writes_mkdirAll _ _).mono (fun q h => aside_above_obj h.1 hk.1)) hk),
+    Nat.zero_add]
+  cases r with
+  | path t => exact countP_final cfg key (.path t)
+  | anon id =>
+    dsimp only
+    split
+    · have hsil : (Step.link id (tdir ++ [name])).silent (reads cfg key) = true := by
+        simp only [Step.silent, Step.writes, List.all_cons, List.all_nil, Bool.and_true, Bool.not_eq_eq_eq_not, Bool.not_true]
+        exact aside_not_read (aside_tmp (htd.trans (List.prefix_append _ _))) hk
+      rw [List.countP_cons_of_neg (by simp [hsil])]
+      exact List.countP_le_length
+    · exact List.countP_le_length
 
 theorem get_of_silent (cfg : Cfg) (key : Path) (l : List Step) (fs : FS) (h : ∀ s ∈ l, s.silent (reads cfg key) = true) :
     (run l fs).get (objPath cfg key) = fs.get (objPath cfg key) := by
@@ -199,11 +245,10 @@ theorem countP_planPutSpec_new (cfg : Cfg) (hs : cfg.sidecar = false) (rq : Req)
     have hget : (run (prePut cfg rq fs key sp) fs).get (objPath cfg key) = none := by
       rw [get_of_silent cfg key _ fs hpre, habs]
     rw [hpost]
-    have : storeAttrs cfg (run (publish (run (prePut cfg rq fs key sp) fs) (openTmp cfg fs 0 (tmpDir cfg) sp.falloc rq.tmp).1 (objPath cfg key))
-        (run (prePut cfg rq fs key sp) fs)) (.path (objPath cfg key)) (objPath cfg key) [] = [] := by
-      unfold storeAttrs; rfl
-    rw [this, List.append_nil, List.countP_append, countP_zero_of_silent hpre, Nat.zero_add]
-    exact countP_publish_absent cfg key hk _ _ hget
+    have hnil : ∀ fs' : FS, storeAttrs cfg fs' (.path (objPath cfg key)) (objPath cfg key) [] = [] := by
+      intro fs'; unfold storeAttrs; rfl
+    rw [hnil, List.append_nil, List.countP_append, countP_zero_of_silent hpre, Nat.zero_add]
+    exact countP_publish_absent cfg key hk _ _ _ _ hget
 
 /-! ### DeleteObject in an unversioned bucket (xattr store) -/
 
@@ -269,11 +314,12 @@ theorem aside_planUploadPart (cfg : Cfg) (hs : cfg.sidecar = false) (rq : Req) (
       intro s hs' q hq
       simp only [List.mem_singleton] at hs'; subst hs'
       exact aside_tmp (hod.trans (ref_openTmp cfg fs 0 _ _ _ q (by simpa [Step.writes] using hq)))
-  · refine (writes_publish _ _ _).mono (fun q h => ?_)
-    rcases h with h | h | h
+  · refine (writes_publishC cfg _ _ _ _ _).mono (fun q h => ?_)
+    rcases h with h | h | h | h
     · exact aside_tmp (h ▸ hpp)
     · exact aside_near_tmp hpp hk (Or.inl h)
     · exact aside_tmp (hod.trans (ref_openTmp cfg fs 0 _ _ _ q h))
+    · exact aside_tmp (h ▸ List.prefix_append _ _)
 
 /-! ### CompleteMultipartUpload onto a key that does not exist (xattr store) -/
 
@@ -327,6 +373,52 @@ theorem countP_planComplete_new (cfg : Cfg) (hs : cfg.sidecar = false) (rq : Req
         rw [get_of_silent cfg rq.key _ fs hpre, habs]
       rw [List.countP_append, List.countP_append, countP_zero_of_silent hpre, Nat.zero_add,
         countP_zero_of_silent (silent_of_aside (aside_cleanupUpload cfg rq _) hk), Nat.add_zero]
-      exact countP_publish_absent cfg rq.key hk _ _ hget
+      exact countP_publish_absent cfg rq.key hk _ _ _ _ hget
+
+/-! ### with docs/C11-fix-1.diff: overwrites are atomic as well -/
+
+theorem countP_planPutSpec_fixed (cfg : Cfg) (hs : cfg.sidecar = false) (har : cfg.atomicReplace = true) (rq : Req) (key : Path)
+    (hk : KeyOK key) (fs : FS) (sp : PutSpec) (hpost : sp.postAttrs = []) :
+    (planPutSpec cfg rq fs key sp).countP (fun s => !s.silent (reads cfg key)) ≤ 1 := by
+  unfold planPutSpec
+  dsimp only
+  split
+  · simp
+  · rename_i hc
+    have hpre := silent_of_aside (aside_prePut cfg hs rq key hk fs sp) hk
+    have hnd : (run (prePut cfg rq fs key sp) fs).isDir (objPath cfg key) = false := by
+      unfold FS.isDir
+      rw [get_of_silent cfg key _ fs hpre]
+      simp only [Bool.or_eq_true, Bool.not_eq_eq_eq_not, Bool.not_true, not_or, Bool.not_eq_true] at hc
+      have := hc.2
+      unfold FS.isDir at this
+      exact this
+    rw [hpost]
+    have hnil : ∀ fs' : FS, storeAttrs cfg fs' (.path (objPath cfg key)) (objPath cfg key) [] = [] := by
+      intro fs'; unfold storeAttrs; rfl
+    rw [hnil, List.append_nil, List.countP_append, countP_zero_of_silent hpre, Nat.zero_add]
+    exact countP_publishR cfg har key hk _ _ _ _ (List.prefix_refl _) hnd
+
+theorem countP_planComplete_fixed (cfg : Cfg) (hs : cfg.sidecar = false) (har : cfg.atomicReplace = true) (rq : Req)
+    (hk : KeyOK rq.key) (fs : FS) :
+    (planComplete cfg rq fs).countP (fun s => !s.silent (reads cfg rq.key)) ≤ 1 := by
+  unfold planComplete
+  dsimp only
+  split
+  · simp
+  · rename_i hc
+    split
+    · simp
+    · have hpre := silent_of_aside (aside_preComplete cfg hs rq hk fs) hk
+      have hnd : (run (preComplete cfg rq fs) fs).isDir (objPath cfg rq.key) = false := by
+        unfold FS.isDir
+        rw [get_of_silent cfg rq.key _ fs hpre]
+        simp only [Bool.or_eq_true, Bool.not_eq_eq_eq_not, Bool.not_true, not_or, Bool.not_eq_true] at hc
+        have := hc.2
+        unfold FS.isDir at this
+        exact this
+      rw [List.countP_append, List.countP_append, countP_zero_of_silent hpre, Nat.zero_add,
+        countP_zero_of_silent (silent_of_aside (aside_cleanupUpload cfg rq _) hk), Nat.add_zero]
+      exact countP_publishR cfg har rq.key hk _ _ _ _ (List.prefix_refl _) hnd
 
 end Vgw.Model.Crash
